@@ -259,6 +259,12 @@ CFG = [cell('cfg_%s_p%d' % (ht, pl), 'harness.h_cfg', 'cfg_%s_p%d' % (ht, pl), (
             bounds='hash_type=%s, loose_prefix_len=%d: add loose (bytes and stream), pack_all_loose, direct to pack, read back through every view; sizes in [0|1,70000]' % (ht, pl),
             samples=[dict(s0=0, s1=66000, s2=5), dict(s0=7, s1=3, s2=66000)])
        for ht in ('sha1', 'sha256') for pl in (0, 1, 2, 3)]
+PACKID = [cell('packid_spec', 'harness.h_cfg', 'packid_spec', (400, 1200),
+               bounds='_get_pack_id_to_write_to: 0..3 existing packs of sizes in [0,1000], target in [1,1000], cached id None or <= first non-full pack, one known_sizes entry',
+               samples=[dict(n0=10, n1=3, n2=9, e=3, target=5, cached=0, known=1, kv=7), dict(n0=10, n1=30, n2=9, e=2, target=5, cached=-1, known=-1, kv=0)])]
+BULK_PACK = [cell('bulk_pack', 'harness.h_cfg', 'bulk_pack', (400, 1200),
+                  bounds='pack_all_loose + clean_storage with _IN_SQL_MAX_LENGTH in [1,2] and _MAX_CHUNK_ITERATE_LENGTH in [0,3] (both lookup strategies), sizes in [1,1000]',
+                  samples=[dict(s0=5, s1=7, s2=9, in_max=1, chunk_max=0, clean=True), dict(s0=5, s1=7, s2=9, in_max=2, chunk_max=3, clean=False)])]
 INIT = [cell('init_refused', 'harness.h_cfg', 'init_refused', (300, 900), bounds='init_container on an initialised container (symbolic arguments) raises and changes nothing; init on an empty folder gives an empty valid container',
              samples=[dict(s0=5, clear=False, target=100, prefix=2)])]
 
@@ -356,6 +362,8 @@ CHECKS = {
                           dict(pack_size=50, offset=3, length=20, op1=4, a1=-25, op2=1, a2=0)]),
             cell('prog3', 'harness.h_reader', 'prog3', (420, 1500), bounds=B_READER + '; programs of 3 operations',
                  samples=[dict(pack_size=50, offset=3, length=20, op1=2, a1=5, op2=3, a2=-2, op3=0, a3=100)]),
+            cell('cbprog2', 'harness.h_reader', 'cbprog2', (200, 600), bounds=B_READER + '; programs of 2 operations through CallbackStreamWrapper',
+                 samples=[dict(pack_size=50, offset=3, length=20, op1=4, a1=-5, op2=0, a2=-1)]),
             cell('prog_reach', 'harness.h_reader', 'prog_reach', (120, 300), bounds=B_READER, expect='REFUTED'),
             cell('zread_small', 'harness.h_zread', 'zread_small', (540, 1500), bounds=B_ZREAD + '; 0 <= a <= 524288',
                  samples=[S_ZREAD], replay_mode='model'),
@@ -438,7 +446,7 @@ CHECKS = {
                      'codec error), `compressed` flag flips, pack_id perturbations, doubly stored (loose + packed) objects'],
     ),
     'C13': dict(
-        cells=PACK_INV + DIRECT_INV + PACK_REACH + DIRECT_REACH + CPACK + CDIRECT + IMPORT_TARGET,
+        cells=PACK_INV + DIRECT_INV + PACK_REACH + DIRECT_REACH + CPACK + CDIRECT + IMPORT_TARGET + PACKID,
         functions=F_WRITE + F_COMP + ['Container.import_objects'],
         assumptions=['pre-state: one pack (possibly already above the target) with holes; symbolic pack_size_target so '
                      'that the pack switch falls anywhere in the batch; pack_all_loose with every compress mode, direct to '
@@ -515,13 +523,15 @@ CHECKS = {
                  samples=[dict(s0=5, s1=7, s2=9, r0=3, r1=1, r2=1, nreq=2, in_max=1, chunk_max=1),
                           dict(s0=5, s1=7, s2=9, r0=0, r1=2, r2=3, nreq=2, in_max=2, chunk_max=2)])
             for v in range(4) for sfx in ('', '_3')
-        ] + [cell('bulk_reach_v1', 'harness.g_bulk', 'bulk_reach_v1', (120, 300), expect='REFUTED')],
+        ] + [cell('bulk_reach_v1', 'harness.g_bulk', 'bulk_reach_v1', (120, 300), expect='REFUTED')] + BULK_PACK
+        + [c for c in IMPORT if c['name'].startswith(('imp_kind_s256_s256_', 'imp_kind_s256_s1_list', 'imp_kind_s256_s1_set'))],
         functions=['utils.detect_where_sorted', 'utils.merge_sorted', 'utils.chunk_iterator',
                    'Container._get_objects_stream_meta_generator (both lookup strategies)', 'Container.has_objects',
                    'Container.get_objects_content', 'Container.get_objects_meta'],
         assumptions=['helper clause: pure functions, model and real world coincide (replay = the same call); bulk clause: the '
-                     'two strategy thresholds are symbolic small integers set on the container instance, the 1000-row paging '
-                     'literal and the bulk packing/cleaning/import operations are not covered'],
+                     'two strategy thresholds are symbolic small integers set on the container instance (views, pack_all_loose, '
+                     'clean_storage); bulk import: request order, repeats, absent keys and iterable kind (imp_kind_* cells); '
+                     'the 1000-row paging literal is not parametrised'],
     ),
     'C17': dict(
         cells=crash_cells('fault', ALL_OPS),
